@@ -34,6 +34,11 @@ def model_dict(m: z3.ModelRef):
 
 
 def model_value(v):
+    try:
+        from .values import z3_to_py, to_json
+        return to_json(z3_to_py(v))
+    except Exception:
+        pass
     if z3.is_string_value(v):
         return v.as_string()
     if z3.is_int_value(v):
